@@ -15,7 +15,7 @@ RULE = ('sequences of assignments target[index] = rhs on identifier-tagged targe
         '(same shape, length-1 axes, lower rank, shapeless, plain numbers), masks in all representations, a second object '
         'sharing the target\'s mask array; distinct = distinct request line / case; non-trivial = some element written')
 MANIFEST = {
-    'text': 'Kernel-checked theorems (PMV/Props/C10.lean, 14) about a code-shaped Lean model of the general path of '
+    'text': 'Kernel-checked theorems (PMV/Props/C10.lean, 18) about a code-shaped Lean model of the general path of '
             'indexer.__setitem__ (prepared index of C09, mask expansion, right-hand side lined up and relocated, plain write '
             'and write through the unmasked index elements, NumPy assignment with last-writer semantics, derivative loops): '
             'state after an assignment = NumPy assignment of values AND mask through the kept coordinates for every mask '
@@ -27,8 +27,8 @@ MANIFEST = {
             'state of target, derivatives and of an object sharing the mask array, before/after).',
     'design': 'DESIGN.md §3 C10, DESIGN.d/C10.md',
     'technique': 'Lean 4 proof (list lemmas on the assignment kernel, induction over assignment sequences) + model/code correspondence',
-    'note': 'Model covers the general path with right-hand sides of at most the selection\'s rank, derivatives included; the '
-            'whole-object path (shapeless targets, a[...] = x) is judged by the direct oracle only. Six assignment defects of '
+    'note': 'Model covers the general path (right-hand sides of at most the selection\'s rank) and the whole-object path '
+            '(shapeless targets, a[...] = x), derivatives included: about 96 % of the generated cases. Six assignment defects of '
             'the pinned tree repaired; open: KF-C10-4 (integer index on a zero-length axis, = KF-C09-1).',
 }
 ASSUMPTIONS = ['NumPy assigns duplicates in row-major order of the selection (last writer wins)',
@@ -332,7 +332,7 @@ def modelled(case):
     for a in case['steps']:
         r = a['rhs']
         if scalar_like(a['index']):
-            return False
+            continue                       # whole-object path (or IndexError): modelled for every right-hand side
         try:
             if not st_shape:
                 out_shape, _ = c09.ref_scalar(a['index'])
